@@ -114,6 +114,12 @@ where
                         Some(permit) => {
                             let value = match rx.recv().await {
                                 Ok(Some(value)) => value,
+                                // An item that could not be received does not end the distribution
+                                // of the items that follow it.
+                                Err(err) if !err.is_final() => {
+                                    tracing::warn!(%err, "receiving item for distribution failed");
+                                    return true;
+                                }
                                 _ => return false,
                             };
                             permit.send(value);
